@@ -127,6 +127,29 @@ def apalache_ind(run):
     return rows, False
 
 
+def tlaps_ind(run):
+    """The TLAPS proofs of spec/SodgIndProofs.tla (tools/tlaps_ind.sh: all obligations proved, two probes that must fail);
+    independent of /repo, cached under the hash of the modules and the script."""
+    script = os.path.join(ROOT, "tools", "tlaps_ind.sh")
+    key = spec_hash("SodgIndProofs", open(script).read())
+    path = os.path.join(CACHE, f"tlaps-{key}.json")
+    if os.path.exists(path):
+        return json.load(open(path)), True
+    p = sh([script, os.path.join(run.dir, "tlaps")], timeout=5400, check=False)
+    rows = []
+    for line in p.stdout.splitlines():
+        m = re.match(r"TLAPS (\S+) expected=(\S+) got=(\S+) obligations=(.*)", line)
+        if m:
+            rows.append({"run": m.group(1), "expected": m.group(2), "got": m.group(3), "obligations": m.group(4)})
+    if p.returncode != 0 or len(rows) != 3 or any(r["expected"] != r["got"] for r in rows):
+        raise ToolError("TLAPS: the proofs of SodgIndProofs did not come out as expected\n" + p.stdout[-2000:] + (p.stderr or "")[-1000:])
+    os.makedirs(CACHE, exist_ok=True)
+    tmp = path + f".{os.getpid()}.tmp"
+    json.dump(rows, open(tmp, "w"))
+    os.replace(tmp, path)
+    return rows, False
+
+
 TLC_STATS = re.compile(r"(\d+) states generated, (\d+) distinct states found")
 
 
